@@ -73,10 +73,11 @@ REG = S("polygon", cls=("RegularPolygon",))
 SIMPLEX = S(("polygon", "polyhedron", "polytope"), pred=lambda m: m["cls"] in ("Triangle", "Simplex"))
 POLYTOPE = S(("segment", "polygon", "polyhedron", "polytope"))
 GEO = S(("point", "line", "plane", "quadric", "segment", "polygon", "polyhedron"))
-ANY = S("any", pred=lambda m: m["base"] != "diagram")
-TEN = S("any", pred=lambda m: m["base"] != "diagram")
-TEN_BOUND = S("any", coll=False, pred=lambda m: m["base"] != "diagram" and len(m["shape"]) <= 4)
-COLL = S("any", coll=True, pred=lambda m: m["base"] != "diagram")
+ANY = S("any", pred=lambda m: m["base"] not in ("diagram", "seq"))
+TEN = S("any", pred=lambda m: m["base"] not in ("diagram", "seq"))
+TEN_BOUND = S("any", coll=False, pred=lambda m: m["base"] not in ("diagram", "seq") and len(m["shape"]) <= 4)
+COLL = S("any", coll=True, pred=lambda m: m["base"] not in ("diagram", "seq"))
+SEQ = S("seq")
 SQUARE = S(("transf", "quadric", "line"), pred=lambda m: len(m["shape"]) >= 2 and m["shape"][-1] == m["shape"][-2])
 DISTABLE = S(("point", "line", "plane", "segment", "polygon", "polyhedron"))
 
@@ -285,6 +286,12 @@ Op("from_points_and_conics", [PT2_S] * 6 + [CONIC, CONIC],
    lambda a, p: Transformation.from_points_and_conics(a[:3], a[3:6], a[6], a[7]),
    api="Transformation.from_points_and_conics")
 
+Op("from_points_and_conics_lists", [SEQ, SEQ, CONIC, CONIC],
+   lambda a, p: Transformation.from_points_and_conics(a[0], a[1], a[2], a[3]),
+   api="Transformation.from_points_and_conics")
+Op("polygon_from_list", [SEQ], lambda a, p: Polygon(*a[0]), api="Polygon")
+Op("pointcollection_from_list", [SEQ], lambda a, p: PointCollection(a[0]), api="PointCollection")
+
 # points
 Op("normalized_array", [S(("point", "segment", "polygon", "polyhedron", "polytope"))],
    lambda a, p: a[0].normalized_array, weight=2, api="PointLikeTensor.normalized_array")
@@ -470,7 +477,7 @@ Op("mul_ts", [ANY], lambda a, p: a[0] * p["s"], p_scalar, api="Tensor.__mul__")
 Op("rmul_ts", [ANY], lambda a, p: p["s"] * a[0], p_scalar, api="Tensor.__rmul__")
 Op("rmul_arr", [ANY], lambda a, p: np.asarray(a[0].array).tolist() * a[0] if a[0].ndim <= 2 else None, samedim=False,
    api="Tensor.__rmul__")
-Op("pow_t", [S("any", coll=False, pred=lambda m: m["base"] not in ("diagram", "transf") and len(m["shape"]) <= 2)],
+Op("pow_t", [S("any", coll=False, pred=lambda m: m["base"] not in ("diagram", "transf", "seq") and len(m["shape"]) <= 2)],
    lambda a, p: a[0] ** p["k"], p_tpow, api="Tensor.__pow__")
 Op("div_ts", [ANY], lambda a, p: a[0] / p["s"], p_scalar_nz, api="Tensor.__truediv__")
 Op("add_tt", [ANY, ANY], lambda a, p: a[0] + a[1], weight=2, api=("Tensor.__add__", "Tensor.__radd__"))
